@@ -14,6 +14,11 @@ CHECKS = {
    text="Every *Constraint.evaluate, ConstraintChain.parse/evaluate/detect_conflicts and Validator._validate_section/_validate_unknown_fields is executed by CrossHair on symbolic values and parameters (strings <= 2-4 chars over all characters, unbounded ints, all value kinds, chains of 1-2 members from a 15-text pool in both separators, schemas of 2 fields x presence masks x unknown fields x all policies) and compared on every path with a reference evaluator written from the property text; path trees are exhausted, each harness has a reachability twin. The DATE regex gate is decided for all strings by z3; float(int) exactness below 2^53 by a bit-vector/FP lemma.",
    note="Trusted: reference evaluator in harness/C08.py; CPython datetime.fromisoformat (calendar arithmetic, C code) and float() parsing, which are exercised only on solver-indexed pools; NaN and symbolic float values outside the claim; error-message formatting elided by AST transformation.",
    ref="DESIGN.md §4 C08"),
+ "C10": dict(
+   technique="CrossHair symbolic execution of the real tool execute() bodies with symbolic flags and collaborator outcomes",
+   text="The real ValidateTool.execute, WriteTool.execute (up to the write block, corrections_only) and EjectTool.execute run under CrossHair with every flag, profile spelling, input mode, schema-resolution outcome (builtin / file with or without fields / none / raises / frozen@ and latest resolution failing), parse outcome, validator outcome before and after repair, emit/compile failure as solver variables; on every path the envelope must carry validation_status in the three values, valid <=> VALIDATED, VALIDATED only with a schema applied and no blocking error, UNVALIDATED on any parse failure or unresolved schema, INVALID only with errors and schema name/version. Path trees exhausted. Real load_schema_by_name executed on all malformed names <= 4 chars.",
+   note="Collaborators are stubs with symbolic outcomes (their own behaviour is decided under C01-C13); CLI wrappers and 'VALIDATED canonical is VALIDATED again' (C09 o C01) are not re-checked here.",
+   ref="DESIGN.md §4 C10, §3 tool layer"),
 }
 NOT_APPLICABLE = {
  "C06": "quantifies over interpreter configurations (PYTHONHASHSEED, locale, cwd, process boundaries, task interleavings); symbolic execution runs inside one configuration and cannot make these symbolic (DESIGN.md §4 C06)",
